@@ -378,7 +378,7 @@ func toCase(m mirror, kind string) emit.Case {
 		evs[i] = coqEv(e)
 	}
 	coq := emit.App("mk", fmt.Sprint(m.Workers), emit.Bool(m.Serial), emit.List("list bool", jobs),
-		emit.List("ev", evs), emit.Bool(m.Hang))
+		emit.List("ev", evs), emit.Bool(m.Hang), fmt.Sprint(m.MaxJobs))
 	return emit.Case{Coq: coq, JSON: m, Nontrivial: ntasks >= 2, Kind: kind, Sig: signature(m)}
 }
 
